@@ -265,7 +265,7 @@ theorem codePass_ok {cfg : Cfg} (L : LegalCfg cfg) (lt : α → α → Bool) (co
   | r1 :: r2 :: rs, h2 =>
     obtain ⟨gs, hg, hlt⟩ := codeGroups_ok L.entryPos L.bufPos L.bufMult reading (r1 :: r2 :: rs).length
       (r1 :: r2 :: rs) (Nat.le_refl _) hM
-    simp only [codePass, hg, storeRuns_eq]
+    simp only [codePass, hg, storeRunsLogged_merge, storeRuns_eq]
     refine ⟨_, rfl, ?_⟩
     have h1 : (nonempties (gs.map (mergeGroup lt comb pick))).length ≤ (gs.map (mergeGroup lt comb pick)).length :=
       length_filter_le _ _
